@@ -7,6 +7,8 @@ CONSTANTS
 INVARIANT RoundTrip
 INVARIANT SizeAgree
 INVARIANT RleFieldsOK
+INVARIANT ShapeSizeAgree
+INVARIANT RunsSetAgree
 INVARIANT Canon
 INVARIANT ScrambleInv
 INVARIANT MutantsDiffer
